@@ -244,7 +244,7 @@ def run_pipeline(tier, ev, col):
         tf = os.path.join(d, 'trace_%s.ndjson' % tag)
         rc, out = V.run([hv, 'trace', src, tf, str(sat)], timeout=900)
         if rc != 0:
-            raise V.Broken('h_vpsc trace failed rc=%d: %s' % (rc, out[-2000:]))
+            V.harness_exit('h_vpsc:trace', rc, out)
         tfiles.append((tag, tf))
     accepted = 0
     for tag, tf in tfiles:
@@ -277,7 +277,7 @@ def run_pipeline(tier, ev, col):
         rf = os.path.join(d, 'recs_%s.json' % tag)
         rc, out = V.run([harness, 'recs', src, rf], timeout=1200, env={'VERIF_SEED': seed})
         if rc != 0:
-            raise V.Broken('%s recs failed rc=%d: %s' % (harness, rc, out[-2000:]))
+            V.harness_exit(os.path.basename(harness) + ':recs', rc, out)
         jobs.append((tag, rf))
     for tag, rf in jobs:
         r = V.tlc(os.path.join(SP, 'VpscRecs.tla'), os.path.join(SP, 'VpscRecs.cfg'), env={'VPSCRECS': rf}, timeout=3000, cont=True, mem='16g')
